@@ -650,7 +650,7 @@ Definition wf_op (n : nat) (s : st) (o : op) : bool :=
   | OBusSetPairs u pairs => pairs_ok (chans_of s u) pairs && nonempty pairs
   | OBusFill _ v (PInt _) => w_num v
   | ORaw m => raw_good m
-  | OBindEnter | OBindExit | OBindRaise _ => true
+  | OBindEnter | OBindExit | OBindRaise _ | OSync _ => true
   | _ => false
   end.
 
